@@ -329,7 +329,20 @@ pub fn suite(check: &str, thorough: bool) -> Suite {
         "C01" => c01(thorough),
         "C02" => c02(thorough),
         "C03" => c03(thorough),
+        "C04" => c04(thorough),
         "C05" => c05(thorough),
+        "C06" => c06(thorough),
+        "C07" => c07(thorough),
+        "C08" => c08(thorough),
+        "C09" => c09(thorough),
+        "C10" => c10(thorough),
+        "C11" => c11(thorough),
+        "C12" => c12(thorough),
+        "C13" => c13(thorough),
+        "C14" => c14(thorough),
+        "C15" => c15(thorough),
+        "C16" => c16(thorough),
+        "C19" => c19(thorough),
         _ => panic!("unknown check {check}"),
     }
 }
@@ -655,6 +668,901 @@ fn c05(thorough: bool) -> Suite {
     Suite {
         cfg: cfg(&[Oracle::DropOnce], &[], false, false),
         rule: "every send variant x every way it can end (buffered, handed off before/after blocking, closed, receive-closed, timeout with won/lost cancel race, refused, future dropped at each point) x receiver variants x droppable payloads; ledger = exactly one destructor run per value at the end of every execution; Option argument Some <=> failure".into(),
+        programs: ps,
+    }
+}
+
+const MEM: [Kind; 3] = [Kind::DataRace, Kind::UseAfterReturn, Kind::Panic];
+const STUCK: [Kind; 2] = [Kind::Deadlock, Kind::Livelock];
+
+fn c04(thorough: bool) -> Suite {
+    let mut ps = Vec::new();
+    let classes = Class::ALL;
+    // one value, every class, every waiter kind on either side; the schedule
+    // decides which of the three transfer paths is taken
+    ps.extend(product(
+        "c04-1",
+        &[
+            seqs(&[Op::Send, Op::SendT(2), Op::SendOT(2), Op::TrySend], 1),
+            seqs(&[Op::Recv, Op::RecvT(2), Op::TryRecv, Op::Drain(VecState::Prefilled)], 1),
+        ],
+        &[Cap::B(0), Cap::B(1)],
+        &classes,
+        &all_flavours(2),
+        &[(S, Conv::Clone)],
+        &[env(2, 1, None, UNB)],
+        true,
+    ));
+    // two values: refill of the buffer from a blocked sender
+    ps.extend(product(
+        "c04-2",
+        &[
+            seqs(&[Op::Send, Op::SendT(2)], 2),
+            seqs(&[Op::Recv, Op::TryRecv], 2),
+        ],
+        &[Cap::B(1)],
+        if thorough { &classes } else { &[Class::B3, Class::P, Class::LP, Class::DL] },
+        &[vec![(S, S), (S, S)], vec![(A, A), (S, S)], vec![(S, S), (A, A)]],
+        &[(S, Conv::Clone)],
+        &[env(2, 1, None, pb2(thorough))],
+        true,
+    ));
+    let mut k = vec![Kind::DataRace, Kind::UseAfterReturn];
+    k.push(Kind::Panic);
+    Suite {
+        cfg: cfg(&[Oracle::Intact], &k, true, false),
+        rule: "payload class (zero-sized, over-aligned zero-sized, 1 byte, 3 bytes padded, pointer-sized, 3 words, 24 bytes padded, droppable twins) x transfer path (buffer / written into a blocked receiver's slot / read out of a blocked sender's slot: decided by the schedule) x waiter kind (sync parked, sync timed, async) x capacity {0,1}; received bytes must equal the sent pattern (all bytes distinct), slot accesses must be happens-before ordered".into(),
+        programs: ps,
+    }
+}
+
+fn c06(thorough: bool) -> Suite {
+    let mut ps = Vec::new();
+    let mut envs = Vec::new();
+    for par in [2u8, 1] {
+        for sp in [None, Some(0u8), Some(1), Some(2)] {
+            envs.push(env(par, 1, sp, UNB));
+        }
+    }
+    if thorough {
+        envs.push(env(2, 2, None, UNB));
+        envs.push(env(2, 2, Some(0), UNB));
+    }
+    // every blocking op against every peer that can release it
+    ps.extend(product(
+        "c06-11",
+        &[
+            seqs(&[Op::Send, Op::SendT(3), Op::SendRepoll, Op::Len(Side::S), Op::Close(Side::S)], 1),
+            seqs(&[Op::Recv, Op::RecvT(3), Op::RecvRepoll, Op::Next, Op::Len(Side::R), Op::Close(Side::R)], 1),
+        ],
+        &[Cap::B(0), Cap::B(1)],
+        &[Class::L],
+        &all_flavours(2),
+        &[(S, Conv::Clone)],
+        &envs,
+        false,
+    ));
+    // two ops: the second wait of a thread meets stale tokens of the first
+    ps.extend(product(
+        "c06-22",
+        &[
+            seqs(&[Op::Send, Op::SendRepoll], 2),
+            seqs(&[Op::Recv, Op::RecvRepoll], 2),
+        ],
+        &[Cap::B(0), Cap::B(1)],
+        &[Class::L],
+        &all_flavours(2),
+        &[(S, Conv::Clone)],
+        &[env(2, 1, None, pb2(thorough)), env(2, 1, Some(1), pb2(thorough))],
+        false,
+    ));
+    // stream across several waits
+    ps.extend(product(
+        "c06-stream",
+        &[
+            seqs(&[Op::Send, Op::TrySend], 2),
+            vec![vec![Op::FStream(0), Op::StreamNext(0), Op::StreamNext(0), Op::StreamNext(0)]],
+        ],
+        &[Cap::B(0), Cap::B(1)],
+        &[Class::L],
+        &[vec![(S, S), (A, A)], vec![(A, A), (A, A)]],
+        &[(S, Conv::Clone)],
+        &[env(2, 1, None, pb2(thorough))],
+        false,
+    ));
+    // 3 threads: waiter, peer, closer / last-handle dropper
+    ps.extend(product(
+        "c06-3thr",
+        &[
+            seqs(&[Op::Send, Op::SendT(2)], 1),
+            seqs(&[Op::Recv, Op::RecvRepoll, Op::Len(Side::R)], 1),
+            seqs(&[Op::Close(Side::R), Op::Recv, Op::Len(Side::S)], 1),
+        ],
+        &[Cap::B(0)],
+        &[Class::L],
+        &sync_only(3),
+        &[(S, Conv::Clone)],
+        &[env(2, 1, None, pb3(thorough)), env(2, 1, Some(0), pb3(thorough))],
+        false,
+    ));
+    Suite {
+        cfg: cfg(&[], &STUCK, false, false),
+        rule: "every blocking / pending operation against every peer that can release it (value, close, last handle of the other side going away) x spurious park index {none,0,1,2} x reported parallelism {1,2} x sync/async on either side, futures re-polled with a different waker; two-op programs (stale unpark tokens), stream across several waits, 3 threads with a closer; every execution must terminate: loom reports 'deadlock' when every unfinished thread is blocked, the per-execution step budget catches endless spinning".into(),
+        programs: ps,
+    }
+}
+
+fn c07(thorough: bool) -> Suite {
+    let mut ps = Vec::new();
+    let classes: &[Class] = if thorough {
+        &[Class::L, Class::P, Class::D4, Class::DL]
+    } else {
+        &[Class::L, Class::DP]
+    };
+    // hand-offs of every waiter kind
+    ps.extend(product(
+        "c07-11",
+        &[
+            seqs(&[Op::Send, Op::SendT(1), Op::SendT(3), Op::SendOT(2), Op::TrySend, Op::SendRepoll, Op::Close(Side::S)], 1),
+            seqs(&[Op::Recv, Op::RecvT(1), Op::RecvT(3), Op::TryRecv, Op::Drain(VecState::Spare), Op::RecvRepoll, Op::Close(Side::R)], 1),
+        ],
+        &[Cap::B(0), Cap::B(1)],
+        classes,
+        &all_flavours(2),
+        &[(S, Conv::Clone)],
+        &[env(2, 1, None, UNB), env(1, 1, Some(0), UNB)],
+        false,
+    ));
+    // scripted futures: waker replacement and drops at every point, racing
+    // with the peer
+    let fut_s = vec![
+        vec![Op::FSend(0), Op::Poll(0, 0), Op::Poll(0, 1), Op::FDrop(0)],
+        vec![Op::FSend(0), Op::Poll(0, 0), Op::FDrop(0)],
+        vec![Op::FSend(0), Op::Poll(0, 0), Op::Poll(0, 1), Op::Poll(0, 0)],
+    ];
+    let fut_r = vec![
+        vec![Op::FRecv(0), Op::Poll(0, 0), Op::Poll(0, 1), Op::FDrop(0)],
+        vec![Op::FRecv(0), Op::Poll(0, 0), Op::FDrop(0)],
+        vec![Op::FRecv(0), Op::Poll(0, 0), Op::Poll(0, 1), Op::Poll(0, 0)],
+        vec![Op::FStream(0), Op::Poll(0, 0), Op::Poll(0, 1), Op::Poll(0, 0), Op::FDrop(0)],
+    ];
+    ps.extend(product(
+        "c07-futs",
+        &[fut_s.clone(), seqs(&[Op::Recv, Op::TryRecv, Op::RecvT(1), Op::Close(Side::R), Op::RecvRepoll], 1)],
+        &[Cap::B(0)],
+        classes,
+        &[vec![(A, A), (S, S)], vec![(A, A), (A, A)]],
+        &[(S, Conv::Clone)],
+        &[env(2, 1, None, UNB)],
+        false,
+    ));
+    ps.extend(product(
+        "c07-futr",
+        &[seqs(&[Op::Send, Op::TrySend, Op::SendT(1), Op::Close(Side::S), Op::SendRepoll], 1), fut_r.clone()],
+        &[Cap::B(0), Cap::B(1)],
+        classes,
+        &[vec![(S, S), (A, A)], vec![(A, A), (A, A)]],
+        &[(S, Conv::Clone)],
+        &[env(2, 1, None, UNB)],
+        false,
+    ));
+    // 3 threads: waiter + peer + closer / canceller
+    ps.extend(product(
+        "c07-3thr",
+        &[
+            seqs(&[Op::Send, Op::SendT(1)], 1),
+            seqs(&[Op::Recv, Op::RecvT(1), Op::TryRecv], 1),
+            seqs(&[Op::Close(Side::R), Op::Recv, Op::Drain(VecState::Empty)], 1),
+        ],
+        &[Cap::B(0)],
+        &[Class::L],
+        &sync_only(3),
+        &[(S, Conv::Clone)],
+        &[env(2, 1, None, pb3(thorough))],
+        false,
+    ));
+    Suite {
+        cfg: cfg(&[], &MEM, true, false),
+        rule: "hand-offs of every waiter kind (sync parked, sync timed, async, pending future with waker replacement / drop at every point, stream) against every peer kind and close, payloads larger than / equal to a pointer and droppable; 3 threads with closer; oracle: loom vector-clock check on every tracked access to a waiter's payload cell, pointee slot, thread-handle cell and waker (ordered after publication, before the owner's return), and no access by a peer to a retired waiter".into(),
+        programs: ps,
+    }
+}
+
+fn c08(thorough: bool) -> Suite {
+    let mut ps = Vec::new();
+    ps.extend(product(
+        "c08-p2c1",
+        &[
+            seqs(&[Op::Send, Op::TrySend, Op::SendT(1), Op::SendRepoll], 2),
+            seqs_upto(&[Op::Recv, Op::TryRecv, Op::Drain(VecState::Empty), Op::Len(Side::R), Op::IsFull(Side::R)], 2),
+        ],
+        &CAPS4,
+        &[Class::P],
+        &sync_only(2),
+        &[(S, Conv::Clone)],
+        &[env(2, 1, None, pb2(thorough))],
+        true,
+    ));
+    ps.extend(product(
+        "c08-p3c1",
+        &[
+            seqs(&[Op::Send, Op::TrySend], 3),
+            seqs_upto(&[Op::Recv, Op::TryRecv, Op::Len(Side::R)], 1),
+        ],
+        &CAPS4,
+        &[Class::P],
+        &all_flavours(2),
+        &[(S, Conv::Clone)],
+        &[env(2, 1, None, pb2(thorough))],
+        true,
+    ));
+    // futures: a pending send does not count as success; cancelled sends
+    ps.extend(product(
+        "c08-fut",
+        &[
+            vec![
+                vec![Op::TrySend, Op::FSend(0), Op::Poll(0, 0), Op::Len(Side::S), Op::Poll(0, 0)],
+                vec![Op::FSend(0), Op::Poll(0, 0), Op::FSend(1), Op::Poll(1, 0), Op::FDrop(0), Op::TrySend],
+            ],
+            seqs_upto(&[Op::Recv, Op::TryRecv, Op::Drain(VecState::Empty)], 2),
+        ],
+        &[Cap::B(0), Cap::B(1), Cap::B(2)],
+        &[Class::P],
+        &[vec![(A, A), (S, S)]],
+        &[(S, Conv::Clone)],
+        &[env(2, 1, None, pb2(thorough))],
+        false,
+    ));
+    ps.extend(product(
+        "c08-3thr",
+        &[
+            seqs(&[Op::Send, Op::TrySend], 2),
+            seqs(&[Op::Send, Op::SendT(1)], 1),
+            seqs(&[Op::Recv, Op::TryRecv, Op::Len(Side::R)], 1),
+        ],
+        &[Cap::B(0), Cap::B(1), Cap::B(2)],
+        &[Class::P],
+        &sync_only(3),
+        &[(S, Conv::Clone)],
+        &[env(2, 1, None, pb3(thorough))],
+        true,
+    ));
+    Suite {
+        cfg: cfg(&[Oracle::Capacity, Oracle::Outcome], &[], false, false),
+        rule: "producers out-numbering consumers by one and two, with blocking, timed, try_ and async sends (incl. pending and cancelled futures), receives, drains and len/is_full observers; capacities {0,1,2,unbounded}; history invariant S(t)-R(t)<=n at every successful send's return; refusal exactly when full and nobody waits (outcome set of the reference model)".into(),
+        programs: ps,
+    }
+}
+
+fn c09(thorough: bool) -> Suite {
+    let mut ps = Vec::new();
+    let ctor_via = [
+        (S, Conv::Clone),
+        (S, Conv::CloneOther),
+        (S, Conv::ToOther),
+        (A, Conv::Clone),
+        (A, Conv::CloneOther),
+        (A, Conv::ToOther),
+    ];
+    ps.extend(product(
+        "c09-core",
+        &[
+            seqs_upto(&[Op::Send, Op::TrySend, Op::SendT(2), Op::Close(Side::S)], if thorough { 2 } else { 1 }),
+            seqs_upto(&[Op::Recv, Op::TryRecv, Op::RecvT(2), Op::Drain(VecState::Empty), Op::Close(Side::R)], if thorough { 2 } else { 1 }),
+        ],
+        &[Cap::B(0), Cap::B(1)],
+        &[Class::DL],
+        &all_flavours(2),
+        &ctor_via,
+        &[env(2, 1, None, if thorough { Some(4) } else { UNB })],
+        true,
+    ));
+    ps.extend(product(
+        "c09-2sends",
+        &[seqs(&[Op::Send, Op::TrySend], 2), seqs(&[Op::Recv, Op::TryRecv], 2)],
+        &[Cap::B(0), Cap::B(1)],
+        &[Class::DL],
+        &all_flavours(2),
+        &[(S, Conv::CloneOther), (A, Conv::ToOther)],
+        &[env(2, 1, None, pb2(thorough))],
+        true,
+    ));
+    // conversions in the middle of a thread's life, counts observed around them
+    ps.extend(product(
+        "c09-conv",
+        &[
+            vec![
+                vec![Op::SCount(Side::S), Op::NewHandle(Side::S, Conv::ToOther), Op::SCount(Side::S), Op::Send],
+                vec![Op::NewHandle(Side::S, Conv::CloneOther), Op::SCount(Side::S), Op::Send, Op::DropHandle(Side::S), Op::Send],
+                vec![Op::NewHandle(Side::S, Conv::Clone), Op::NewHandle(Side::S, Conv::ToOther), Op::Send, Op::SCount(Side::S)],
+            ],
+            vec![
+                vec![Op::RCount(Side::R), Op::NewHandle(Side::R, Conv::ToOther), Op::RCount(Side::R), Op::Recv],
+                vec![Op::NewHandle(Side::R, Conv::CloneOther), Op::Recv, Op::DropHandle(Side::R), Op::RCount(Side::R), Op::TryRecv],
+            ],
+        ],
+        &[Cap::B(0), Cap::B(1)],
+        &[Class::DL],
+        &all_flavours(2),
+        &[(S, Conv::Clone), (A, Conv::Clone)],
+        &[env(2, 1, None, pb2(thorough))],
+        true,
+    ));
+    Suite {
+        cfg: cfg(
+            &[Oracle::ExactlyOnce, Oracle::Fifo, Oracle::DropOnce, Oracle::Outcome],
+            &STUCK,
+            false,
+            false,
+        ),
+        rule: "the core programs instantiated for every {sync, async} assignment of each endpoint, reached through each of bounded/bounded_async + clone, clone_sync/clone_async, to_sync/to_async (and as_sync/as_async borrowed views for operations the handle's own flavour lacks); conversions in the middle of a thread's life with counts observed around them; all delivery, order, ownership, model-outcome and progress oracles".into(),
+        programs: ps,
+    }
+}
+
+fn c10(thorough: bool) -> Suite {
+    let mut ps = Vec::new();
+    // closer thread (close, then operations begun after it returned) against a
+    // thread with blocked / buffered / in-flight operations
+    ps.extend(product(
+        "c10-closer-r",
+        &[
+            seqs_upto(&[Op::Send, Op::TrySend, Op::SendT(2), Op::SendRepoll, Op::Close(Side::S)], 2),
+            vec![
+                vec![Op::Close(Side::R)],
+                vec![Op::Close(Side::R), Op::TryRecv],
+                vec![Op::Close(Side::R), Op::Recv],
+                vec![Op::Close(Side::R), Op::RecvT(1)],
+                vec![Op::Close(Side::R), Op::Drain(VecState::Spare)],
+                vec![Op::Close(Side::R), Op::Len(Side::R), Op::RCount(Side::R), Op::IsClosed(Side::R)],
+                vec![Op::Close(Side::R), Op::Close(Side::R)],
+                vec![Op::TryRecv, Op::Close(Side::R), Op::Next],
+                vec![Op::Close(Side::R), Op::FRecv(0), Op::Poll(0, 0)],
+            ],
+        ],
+        &CAPS3,
+        &[Class::DL],
+        &sync_only(2),
+        &[(S, Conv::Clone)],
+        &[env(2, 1, None, pb2(thorough))],
+        false,
+    ));
+    ps.extend(product(
+        "c10-closer-s",
+        &[
+            vec![
+                vec![Op::Close(Side::S), Op::Send],
+                vec![Op::Close(Side::S), Op::TrySend],
+                vec![Op::Close(Side::S), Op::SendT(1)],
+                vec![Op::Close(Side::S), Op::SendOT(1)],
+                vec![Op::Close(Side::S), Op::TrySendO],
+                vec![Op::TrySend, Op::Close(Side::S), Op::SCount(Side::S), Op::IsDisc(Side::S)],
+                vec![Op::Send, Op::Close(Side::S)],
+                vec![Op::Close(Side::S), Op::FSend(0), Op::Poll(0, 0)],
+            ],
+            seqs_upto(&[Op::Recv, Op::TryRecv, Op::RecvT(2), Op::RecvRepoll, Op::Drain(VecState::Empty), Op::Close(Side::R)], 2),
+        ],
+        &CAPS3,
+        &[Class::DL],
+        &sync_only(2),
+        &[(S, Conv::Clone)],
+        &[env(2, 1, None, pb2(thorough))],
+        false,
+    ));
+    // async flavours
+    ps.extend(product(
+        "c10-async",
+        &[
+            seqs_upto(&[Op::Send, Op::TrySend, Op::Close(Side::S)], 1),
+            vec![
+                vec![Op::Close(Side::R), Op::Recv],
+                vec![Op::FStream(0), Op::Poll(0, 0), Op::Close(Side::R), Op::Poll(0, 0), Op::Poll(0, 0)],
+                vec![Op::FRecv(0), Op::Poll(0, 0), Op::Close(Side::R), Op::Poll(0, 0)],
+            ],
+        ],
+        &[Cap::B(0), Cap::B(1)],
+        &[Class::DL],
+        &[vec![(A, A), (A, A)], vec![(S, S), (A, A)]],
+        &[(A, Conv::Clone)],
+        &[env(2, 1, None, pb2(thorough))],
+        false,
+    ));
+    // 3 threads: closer + sender + receiver
+    ps.extend(product(
+        "c10-3thr",
+        &[
+            seqs(&[Op::Send, Op::TrySend, Op::SendT(1)], 1),
+            seqs(&[Op::Recv, Op::TryRecv, Op::RecvT(1)], 1),
+            vec![vec![Op::Close(Side::S)], vec![Op::Close(Side::R), Op::TryRecv], vec![Op::Close(Side::S), Op::TrySend]],
+        ],
+        &[Cap::B(0), Cap::B(1)],
+        &[Class::DL],
+        &sync_only(3),
+        &[(S, Conv::Clone)],
+        &[env(2, 1, None, pb3(thorough))],
+        false,
+    ));
+    Suite {
+        cfg: cfg(&[Oracle::Close, Oracle::Outcome, Oracle::DropOnce], &STUCK, false, false),
+        rule: "close issued by either side at any point against blocked / pending / buffered / in-flight operations of every kind, operations begun by the closing thread after close returned, second close, 3 threads; oracle: exactly one close succeeds, everything begun after its return fails Closed (counts 0, no value delivered), buffered values destroyed by close's return, blocked operations released, results in the model's outcome set".into(),
+        programs: ps,
+    }
+}
+
+fn c11(thorough: bool) -> Suite {
+    let mut ps = Vec::new();
+    // a sender that sends and goes away (explicitly or at thread end), with and
+    // without a second handle; receivers draining afterwards
+    ps.extend(product(
+        "c11-s-goes",
+        &[
+            vec![
+                vec![Op::Send],
+                vec![Op::TrySend, Op::TrySend],
+                vec![Op::Send, Op::DropHandle(Side::S)],
+                vec![Op::NewHandle(Side::S, Conv::Clone), Op::Send, Op::DropHandle(Side::S), Op::TrySend],
+                vec![Op::NewHandle(Side::S, Conv::CloneOther), Op::DropHandle(Side::S), Op::Send],
+                vec![Op::Len(Side::S)],
+            ],
+            seqs_upto(&[Op::Recv, Op::TryRecv, Op::RecvT(2), Op::Next, Op::IsDisc(Side::R), Op::IsTerm, Op::RecvRepoll], 2),
+        ],
+        &CAPS3,
+        &[Class::DL],
+        &sync_only(2),
+        &[(S, Conv::Clone)],
+        &[env(2, 1, None, pb2(thorough))],
+        false,
+    ));
+    ps.extend(product(
+        "c11-r-goes",
+        &[
+            seqs_upto(&[Op::Send, Op::TrySend, Op::SendT(2), Op::SendOT(2), Op::IsDisc(Side::S), Op::SendRepoll], 2),
+            vec![
+                vec![Op::Len(Side::R)],
+                vec![Op::TryRecv],
+                vec![Op::Recv, Op::DropHandle(Side::R)],
+                vec![Op::NewHandle(Side::R, Conv::Clone), Op::DropHandle(Side::R), Op::TryRecv],
+                vec![Op::NewHandle(Side::R, Conv::CloneOther), Op::Recv, Op::DropHandle(Side::R)],
+            ],
+        ],
+        &CAPS3,
+        &[Class::DL],
+        &sync_only(2),
+        &[(S, Conv::Clone)],
+        &[env(2, 1, None, pb2(thorough))],
+        false,
+    ));
+    ps.extend(product(
+        "c11-async",
+        &[
+            vec![vec![Op::Send], vec![Op::FSend(0), Op::Poll(0, 0)], vec![Op::TrySend, Op::Send]],
+            vec![vec![Op::Recv, Op::Recv], vec![Op::FStream(0), Op::StreamNext(0), Op::StreamNext(0), Op::StreamNext(0)], vec![Op::Len(Side::R)]],
+        ],
+        &[Cap::B(0), Cap::B(1)],
+        &[Class::DL],
+        &[vec![(A, A), (A, A)]],
+        &[(A, Conv::Clone)],
+        &[env(2, 1, None, pb2(thorough))],
+        false,
+    ));
+    // 3 threads: two senders leaving at different times, one receiver
+    ps.extend(product(
+        "c11-3thr",
+        &[
+            seqs(&[Op::Send, Op::TrySend, Op::Len(Side::S)], 1),
+            seqs(&[Op::Send, Op::Len(Side::S)], 1),
+            seqs(&[Op::Recv, Op::TryRecv, Op::IsDisc(Side::R)], 2),
+        ],
+        &[Cap::B(0), Cap::B(1)],
+        &[Class::DL],
+        &sync_only(3),
+        &[(S, Conv::Clone)],
+        &[env(2, 1, None, pb3(thorough))],
+        false,
+    ));
+    Suite {
+        cfg: cfg(&[Oracle::Disconnect, Oracle::Outcome, Oracle::Fifo], &STUCK, false, false),
+        rule: "clone/drop of handles of both flavours interleaved with blocked, buffered and in-flight operations; capacities {0,1,unbounded}; oracle: a disconnect is never observed while a handle of that side is surely alive, buffered values come first and in order, every blocked operation is released, results in the model's outcome set (the model fails waiters only on the 1->0 transition)".into(),
+        programs: ps,
+    }
+}
+
+fn c12(thorough: bool) -> Suite {
+    let mut ps = Vec::new();
+    let hs = [
+        Op::NewHandle(Side::S, Conv::Clone),
+        Op::NewHandle(Side::S, Conv::CloneOther),
+        Op::NewHandle(Side::S, Conv::ToOther),
+        Op::DropHandle(Side::S),
+        Op::SCount(Side::S),
+    ];
+    let hr = [
+        Op::NewHandle(Side::R, Conv::Clone),
+        Op::NewHandle(Side::R, Conv::CloneOther),
+        Op::NewHandle(Side::R, Conv::ToOther),
+        Op::DropHandle(Side::R),
+        Op::RCount(Side::R),
+        Op::SCount(Side::R),
+        Op::Close(Side::R),
+    ];
+    let n = if thorough { 3 } else { 2 };
+    let valid = |ops: &Vec<Op>, side: Side| {
+        // never drop the last handle and then use it
+        let mut depth = 1i32;
+        for o in ops {
+            if depth <= 0 {
+                return false;
+            }
+            match o {
+                Op::NewHandle(s, c) if *s == side && *c != Conv::ToOther => depth += 1,
+                Op::DropHandle(s) if *s == side => depth -= 1,
+                _ => {}
+            }
+        }
+        true
+    };
+    let sa: Vec<Vec<Op>> = seqs_upto(&hs, n).into_iter().filter(|o| valid(o, Side::S)).collect();
+    let ra: Vec<Vec<Op>> = seqs_upto(&hr, n).into_iter().filter(|o| valid(o, Side::R)).collect();
+    ps.extend(product(
+        "c12-conc",
+        &[sa, ra],
+        &[Cap::B(1)],
+        &[Class::P],
+        &[vec![(S, S), (S, S)], vec![(A, A), (S, S)]],
+        &[(S, Conv::Clone)],
+        &[env(2, 1, None, pb2(thorough))],
+        false,
+    ));
+    Suite {
+        cfg: cfg(&[Oracle::Counts, Oracle::Outcome], &[], false, false),
+        rule: "concurrent clone / clone_sync / clone_async / to_sync / to_async / drop / close with sender_count() / receiver_count() observed at any point, 2 threads x <=2 (thorough 3) ops; every observed count must be a count of the reference model under some interleaving (ledger of live handles; 0 after close, never revived)".into(),
+        programs: ps,
+    }
+}
+
+fn c13(thorough: bool) -> Suite {
+    let mut ps = Vec::new();
+    let ds: &[u8] = if thorough { &[0, 1, 2, 4] } else { &[0, 1, 3] };
+    let st: Vec<Op> = ds.iter().flat_map(|d| [Op::SendT(*d), Op::SendOT(*d)]).collect();
+    let rt: Vec<Op> = ds.iter().map(|d| Op::RecvT(*d)).collect();
+    let mut envs = vec![env(2, 1, None, UNB), env(1, 1, None, UNB)];
+    if thorough {
+        envs.push(env(2, 2, None, UNB));
+        envs.push(env(2, 1, Some(0), UNB));
+    }
+    ps.extend(product(
+        "c13-send",
+        &[
+            seqs(&st, 1),
+            seqs(&[Op::Recv, Op::TryRecv, Op::RecvT(1), Op::Drain(VecState::Spare), Op::RecvRepoll, Op::Close(Side::R), Op::Len(Side::R)], 1),
+        ],
+        &[Cap::B(0), Cap::B(1)],
+        &[Class::D4, Class::DL],
+        &[vec![(S, S), (S, S)], vec![(S, S), (A, A)]],
+        &[(S, Conv::Clone)],
+        &envs,
+        false,
+    ));
+    ps.extend(product(
+        "c13-recv",
+        &[
+            seqs(&[Op::Send, Op::TrySend, Op::SendT(1), Op::SendRepoll, Op::Close(Side::S), Op::Len(Side::S)], 1),
+            seqs(&rt, 1),
+        ],
+        &[Cap::B(0), Cap::B(1)],
+        &[Class::D4, Class::DL],
+        &[vec![(S, S), (S, S)], vec![(A, A), (S, S)]],
+        &[(S, Conv::Clone)],
+        &envs,
+        false,
+    ));
+    // a later peer must not be delivered into the timed-out waiter
+    ps.extend(product(
+        "c13-later-peer",
+        &[
+            vec![vec![Op::SendT(1), Op::TrySend], vec![Op::SendOT(1), Op::Send], vec![Op::SendT(0), Op::SendT(1)]],
+            seqs(&[Op::Recv, Op::TryRecv, Op::RecvT(1)], 2),
+        ],
+        &[Cap::B(0), Cap::B(1)],
+        &[Class::DL],
+        &sync_only(2),
+        &[(S, Conv::Clone)],
+        &[env(2, 1, None, pb2(thorough))],
+        false,
+    ));
+    ps.extend(product(
+        "c13-later-peer-r",
+        &[
+            seqs(&[Op::Send, Op::TrySend, Op::SendT(1)], 2),
+            vec![vec![Op::RecvT(1), Op::TryRecv], vec![Op::RecvT(0), Op::Recv], vec![Op::RecvT(1), Op::RecvT(1)]],
+        ],
+        &[Cap::B(0), Cap::B(1)],
+        &[Class::DL],
+        &sync_only(2),
+        &[(S, Conv::Clone)],
+        &[env(2, 1, None, pb2(thorough))],
+        false,
+    ));
+    ps.extend(product(
+        "c13-3thr",
+        &[
+            seqs(&[Op::SendT(1), Op::SendOT(2)], 1),
+            seqs(&[Op::RecvT(1), Op::Recv], 1),
+            seqs(&[Op::Close(Side::R), Op::TryRecv, Op::Len(Side::S)], 1),
+        ],
+        &[Cap::B(0)],
+        &[Class::DL],
+        &sync_only(3),
+        &[(S, Conv::Clone)],
+        &[env(2, 1, None, pb3(thorough))],
+        false,
+    ));
+    let mut k = vec![Kind::UseAfterReturn, Kind::DataRace, Kind::Panic];
+    k.extend_from_slice(&STUCK);
+    Suite {
+        cfg: cfg(&[Oracle::Timed, Oracle::ExactlyOnce, Oracle::Outcome], &k, true, false),
+        rule: "each timed operation (send_timeout, send_option_timeout, recv_timeout; durations of 0..4 virtual ticks) against a peer that arrives, hands off, closes or disconnects at any point, reported parallelism {1,2}, droppable payloads; a later peer after the timeout; 3 threads; oracle: exactly one of success/timeout/closed, timeout never before the deadline on the virtual clock, value moved exactly once or not at all (ledger, Option), nothing left behind (no access to the retired waiter, later operations per the model), every execution terminates".into(),
+        programs: ps,
+    }
+}
+
+fn c14(thorough: bool) -> Suite {
+    let mut ps = Vec::new();
+    let try_s = [Op::TrySend, Op::TrySendO, Op::TrySendRt, Op::TrySendORt];
+    let try_r = [Op::TryRecv, Op::TryRecvRt, Op::Drain(VecState::Spare)];
+    // the peer is in the middle of each of its operations (loom preempts it at
+    // every point, including while it holds the lock)
+    ps.extend(product(
+        "c14-s",
+        &[
+            seqs_upto(&try_s, if thorough { 2 } else { 1 }),
+            seqs_upto(&[Op::Recv, Op::RecvT(2), Op::TryRecv, Op::RecvRepoll, Op::Close(Side::R), Op::Len(Side::R), Op::Drain(VecState::Empty)], 2),
+        ],
+        &CAPS3,
+        &[Class::DL],
+        &[vec![(S, S), (S, S)], vec![(A, A), (A, A)]],
+        &[(S, Conv::Clone)],
+        &[env(2, 1, None, pb2(thorough)), env(1, 1, None, pb2(thorough))],
+        false,
+    ));
+    ps.extend(product(
+        "c14-r",
+        &[
+            seqs_upto(&[Op::Send, Op::SendT(2), Op::TrySend, Op::SendRepoll, Op::Close(Side::S), Op::Len(Side::S)], 2),
+            seqs_upto(&try_r, if thorough { 2 } else { 1 }),
+        ],
+        &CAPS3,
+        &[Class::DL],
+        &[vec![(S, S), (S, S)], vec![(A, A), (A, A)]],
+        &[(S, Conv::Clone)],
+        &[env(2, 1, None, pb2(thorough)), env(1, 1, None, pb2(thorough))],
+        false,
+    ));
+    // refused try_send leaves the channel unchanged: observers before / after
+    ps.extend(product(
+        "c14-refused",
+        &[
+            vec![
+                vec![Op::TrySend, Op::Len(Side::S), Op::TrySend, Op::Len(Side::S), Op::IsFull(Side::S)],
+                vec![Op::TrySendO, Op::TrySendO, Op::Len(Side::S), Op::RCount(Side::S)],
+            ],
+            seqs_upto(&[Op::TryRecv, Op::Len(Side::R), Op::Recv], 1),
+        ],
+        &[Cap::B(0), Cap::B(1)],
+        &[Class::DL],
+        &sync_only(2),
+        &[(S, Conv::Clone)],
+        &[env(2, 1, None, pb2(thorough))],
+        false,
+    ));
+    ps.extend(product(
+        "c14-3thr",
+        &[
+            seqs(&[Op::TrySend, Op::TrySendO], 1),
+            seqs(&[Op::Send, Op::SendT(1)], 1),
+            seqs(&[Op::TryRecv, Op::Drain(VecState::Spare), Op::Recv], 2),
+        ],
+        &[Cap::B(0), Cap::B(1)],
+        &[Class::DL],
+        &sync_only(3),
+        &[(S, Conv::Clone)],
+        &[env(2, 1, None, pb3(thorough))],
+        false,
+    ));
+    Suite {
+        cfg: cfg(&[Oracle::Outcome, Oracle::ExactlyOnce, Oracle::DropOnce], &[Kind::NoWait], false, true),
+        rule: "try_send*, try_recv*, drain_into against a peer that loom preempts at every point of each of its own operations (including while it holds the channel lock), reported parallelism {1,2}; truthfulness: results in the reference model's outcome set (a refused try_send leaves the state unchanged), value moved exactly when success is reported; never waits: inside the call the shim forbids park, signal-wait loops and repeated loads of a signal state word, and for the *_realtime variants also any yield/sleep and more than 12 synchronisation steps".into(),
+        programs: ps,
+    }
+}
+
+fn c15(thorough: bool) -> Suite {
+    let mut ps = Vec::new();
+    let classes: &[Class] = if thorough { &[Class::D4, Class::DP, Class::DL] } else { &[Class::DP, Class::DL] };
+    let fs = vec![
+        vec![Op::FSend(0), Op::FDrop(0)],
+        vec![Op::FSend(0), Op::Poll(0, 0), Op::FDrop(0)],
+        vec![Op::FSend(0), Op::Poll(0, 0), Op::Poll(0, 0), Op::FDrop(0)],
+        vec![Op::FSend(0), Op::Poll(0, 0), Op::Poll(0, 1), Op::FDrop(0), Op::TrySend],
+        vec![Op::FSend(0), Op::Poll(0, 0), Op::FDrop(0), Op::Send],
+    ];
+    let fr = vec![
+        vec![Op::FRecv(0), Op::FDrop(0)],
+        vec![Op::FRecv(0), Op::Poll(0, 0), Op::FDrop(0)],
+        vec![Op::FRecv(0), Op::Poll(0, 0), Op::Poll(0, 0), Op::FDrop(0)],
+        vec![Op::FRecv(0), Op::Poll(0, 0), Op::Poll(0, 1), Op::FDrop(0), Op::TryRecv],
+        vec![Op::FRecv(0), Op::Poll(0, 0), Op::FDrop(0), Op::Recv],
+        vec![Op::FStream(0), Op::Poll(0, 0), Op::FDrop(0), Op::TryRecv],
+        vec![Op::FStream(0), Op::Poll(0, 0), Op::Poll(0, 0), Op::FDrop(0)],
+    ];
+    ps.extend(product(
+        "c15-send",
+        &[fs, seqs_upto(&[Op::Recv, Op::TryRecv, Op::RecvT(1), Op::RecvRepoll, Op::Drain(VecState::Spare), Op::Close(Side::R)], 2)],
+        &[Cap::B(0), Cap::B(1)],
+        classes,
+        &[vec![(A, A), (S, S)], vec![(A, A), (A, A)]],
+        &[(S, Conv::Clone)],
+        &[env(2, 1, None, pb2(thorough))],
+        false,
+    ));
+    ps.extend(product(
+        "c15-recv",
+        &[seqs_upto(&[Op::Send, Op::TrySend, Op::SendT(1), Op::SendRepoll, Op::Close(Side::S)], 2), fr],
+        &[Cap::B(0), Cap::B(1)],
+        classes,
+        &[vec![(S, S), (A, A)], vec![(A, A), (A, A)]],
+        &[(S, Conv::Clone)],
+        &[env(2, 1, None, pb2(thorough))],
+        false,
+    ));
+    // a second waiter queued behind the dropped one keeps its place
+    ps.extend(product(
+        "c15-queue",
+        &[
+            vec![
+                vec![Op::FSend(0), Op::Poll(0, 0), Op::FSend(1), Op::Poll(1, 0), Op::FSend(2), Op::Poll(2, 0), Op::FDrop(1), Op::Set(0), Op::Wait(1)],
+                vec![Op::FSend(0), Op::Poll(0, 0), Op::FSend(1), Op::Poll(1, 0), Op::FDrop(0), Op::Set(0), Op::Wait(1)],
+            ],
+            vec![vec![Op::Wait(0), Op::Recv, Op::TryRecv, Op::TryRecv, Op::Set(1)], vec![Op::Wait(0), Op::Drain(VecState::Empty), Op::Set(1)]],
+        ],
+        &[Cap::B(0), Cap::B(1)],
+        classes,
+        &[vec![(A, A), (S, S)]],
+        &[(S, Conv::Clone)],
+        &[env(2, 1, None, UNB)],
+        false,
+    ));
+    let mut k = MEM.to_vec();
+    k.extend_from_slice(&STUCK);
+    Suite {
+        cfg: cfg(&[Oracle::ExactlyOnce, Oracle::DropOnce, Oracle::Fifo, Oracle::Outcome], &k, true, false),
+        rule: "send / receive futures and the stream dropped at every point of their life (never polled, pending, pending after a spurious poll with the same or another waker, claimed by a peer, completed) against sync / async peers and close, followed by further operations; droppable payloads; a second and third waiter queued around the dropped one; oracle: delivered exactly once xor dropped exactly once, no access to the future's memory after the drop (tracker), later operations per the reference model, order of remaining waiters".into(),
+        programs: ps,
+    }
+}
+
+fn c16(thorough: bool) -> Suite {
+    let mut ps = Vec::new();
+    let polls_s = vec![
+        vec![Op::FSend(0), Op::Poll(0, 0), Op::Poll(0, 0), Op::Poll(0, 0)],
+        vec![Op::FSend(0), Op::Poll(0, 0), Op::Poll(0, 1), Op::Poll(0, 1)],
+        vec![Op::FSend(0), Op::Poll(0, 0), Op::Poll(0, 1), Op::Poll(0, 0), Op::Poll(0, 0)],
+    ];
+    let polls_r = vec![
+        vec![Op::FRecv(0), Op::Poll(0, 0), Op::Poll(0, 0), Op::Poll(0, 0)],
+        vec![Op::FRecv(0), Op::Poll(0, 0), Op::Poll(0, 1), Op::Poll(0, 1)],
+        vec![Op::FStream(0), Op::Poll(0, 0), Op::Poll(0, 0), Op::Poll(0, 0), Op::Poll(0, 0)],
+        vec![Op::FStream(0), Op::Poll(0, 0), Op::Poll(0, 1), Op::Poll(0, 0), Op::Poll(0, 1)],
+        vec![Op::FStream(0), Op::StreamNext(0), Op::Poll(0, 0), Op::Poll(0, 0), Op::StreamNext(0)],
+    ];
+    ps.extend(product(
+        "c16-send",
+        &[polls_s, seqs_upto(&[Op::Recv, Op::TryRecv, Op::Close(Side::R), Op::Len(Side::R)], 2)],
+        &[Cap::B(0), Cap::B(1)],
+        &[Class::DL, Class::DP],
+        &[vec![(A, A), (S, S)], vec![(A, A), (A, A)]],
+        &[(A, Conv::Clone)],
+        &[env(2, 1, None, pb2(thorough))],
+        false,
+    ));
+    ps.extend(product(
+        "c16-recv",
+        &[seqs_upto(&[Op::Send, Op::TrySend, Op::Close(Side::S), Op::Len(Side::S)], 2), polls_r],
+        &[Cap::B(0), Cap::B(1)],
+        &[Class::DL, Class::DP],
+        &[vec![(S, S), (A, A)], vec![(A, A), (A, A)]],
+        &[(A, Conv::Clone)],
+        &[env(2, 1, None, pb2(thorough))],
+        false,
+    ));
+    // executor that re-polls with a fresh waker and sleeps on the newest only
+    ps.extend(product(
+        "c16-repoll",
+        &[seqs(&[Op::SendRepoll, Op::Send], 1), seqs(&[Op::RecvRepoll, Op::Recv], 1)],
+        &[Cap::B(0), Cap::B(1)],
+        &[Class::DL],
+        &all_flavours(2),
+        &[(A, Conv::Clone)],
+        &[env(2, 1, None, UNB)],
+        false,
+    ));
+    let mut k = STUCK.to_vec();
+    k.push(Kind::Panic);
+    Suite {
+        cfg: cfg(&[Oracle::Outcome, Oracle::ExactlyOnce, Oracle::DropOnce], &k, false, false),
+        rule: "poll scripts an executor may legally produce (spurious polls with the same and with a different waker, polls after completion, repeated waits on one stream) racing with a peer thread; an executor that re-polls with a fresh waker and then sleeps on the newest waker only (waking a stale waker = deadlock); results in the reference model's outcome set, a finished future panics, stream items once and in order then None forever".into(),
+        programs: ps,
+    }
+}
+
+fn c19(thorough: bool) -> Suite {
+    let mut ps = Vec::new();
+    let vs = [VecState::Empty, VecState::Spare, VecState::Prefilled];
+    let drains: Vec<Vec<Op>> = vs
+        .iter()
+        .flat_map(|v| {
+            vec![
+                vec![Op::Wait(0), Op::Drain(*v), Op::Set(1)],
+                vec![Op::Wait(0), Op::Drain(*v), Op::Drain(VecState::Empty), Op::Set(1)],
+            ]
+        })
+        .collect();
+    // channel states built by a setup prefix: k buffered + j pending senders
+    ps.extend(product(
+        "c19-state",
+        &[
+            vec![
+                vec![Op::Set(0), Op::Wait(1)],
+                vec![Op::TrySend, Op::Set(0), Op::Wait(1)],
+                vec![Op::TrySend, Op::TrySend, Op::Set(0), Op::Wait(1)],
+                vec![Op::TrySend, Op::FSend(0), Op::Poll(0, 0), Op::Set(0), Op::Wait(1), Op::Poll(0, 0)],
+                vec![Op::TrySend, Op::FSend(0), Op::Poll(0, 0), Op::FSend(1), Op::Poll(1, 0), Op::Set(0), Op::Wait(1), Op::Poll(0, 0), Op::Poll(1, 0)],
+                vec![Op::FSend(0), Op::Poll(0, 0), Op::FSend(1), Op::Poll(1, 0), Op::FSend(2), Op::Poll(2, 0), Op::FDrop(1), Op::Set(0), Op::Wait(1)],
+                vec![Op::TrySend, Op::Close(Side::S), Op::Set(0), Op::Wait(1)],
+            ],
+            drains,
+        ],
+        &CAPS4,
+        &[Class::DL, Class::P, Class::Z],
+        &[vec![(A, A), (S, S)], vec![(A, A), (A, A)]],
+        &[(S, Conv::Clone)],
+        &[env(2, 1, None, UNB)],
+        false,
+    ));
+    // drain racing with senders (sync blocked / timed / try)
+    ps.extend(product(
+        "c19-race",
+        &[
+            seqs_upto(&[Op::Send, Op::TrySend, Op::SendT(2), Op::SendRepoll], 2),
+            vs.iter().flat_map(|v| vec![vec![Op::Drain(*v)], vec![Op::Drain(*v), Op::Drain(VecState::Spare)], vec![Op::TryRecv, Op::Drain(*v)]]).collect(),
+        ],
+        &CAPS3,
+        &[Class::DL],
+        &sync_only(2),
+        &[(S, Conv::Clone)],
+        &[env(2, 1, None, pb2(thorough))],
+        false,
+    ));
+    // waiting receivers instead of senders
+    ps.extend(product(
+        "c19-3thr",
+        &[
+            seqs(&[Op::Send, Op::TrySend], 1),
+            seqs(&[Op::Send, Op::SendT(1)], 1),
+            vec![vec![Op::Drain(VecState::Spare)], vec![Op::Drain(VecState::Prefilled), Op::Drain(VecState::Empty)], vec![Op::Recv, Op::Drain(VecState::Empty)]],
+        ],
+        &[Cap::B(0), Cap::B(1)],
+        &[Class::DL],
+        &sync_only(3),
+        &[(S, Conv::Clone)],
+        &[env(2, 1, None, pb3(thorough))],
+        false,
+    ));
+    let mut k = STUCK.to_vec();
+    k.push(Kind::NoWait);
+    Suite {
+        cfg: cfg(&[Oracle::Drain, Oracle::Outcome, Oracle::DropOnce], &k, false, true),
+        rule: "channel states built by a setup prefix (k buffered values + j pending async senders in known order, one cancelled; closed) x vector states {empty, spare capacity, pre-filled with sentinels and no spare capacity} x capacities {0,1,2,unbounded}; drain racing with blocked / timed / try senders; 3 threads; oracle: returned count = number appended, prefix untouched, order = buffer then senders oldest first, every drained sender reports success, closed => error and nothing appended, the call never waits for a peer".into(),
         programs: ps,
     }
 }
